@@ -164,4 +164,5 @@ def random_cfg(rng, profile=None, model=None):
                re_pub_on_connmade=rng.random() < 0.1,
                re_echo=rng.random() < 0.1,
                re_connect_on_disc=rng.random() < 0.1,
-               re_disc_on=rng.choice([None] * 10 + ["ack", "suback", "onpublish", "connmade", "connected"]))
+               re_disc_on=rng.choice([None] * 10 + ["ack", "suback", "onpublish", "connmade", "connected"]),
+               late=rng.choice([0.0] * 6 + [0.0078125, 0.25]))
